@@ -281,7 +281,13 @@ class Engine:
             for rx, label in self.cfg.stmt_events:
                 m = rx.search(text)
                 if m:
-                    st.emit(label(m) if callable(label) else label)
+                    if callable(label):
+                        try:
+                            st.emit(label(m, av))
+                        except TypeError:
+                            st.emit(label(m))
+                    else:
+                        st.emit(label)
 
     def truth(self, av):
         if isinstance(av, Const):
